@@ -17,11 +17,12 @@ CLAIMS = {
          "Additionally the isomorphism itself is decided on every run by the oracle (walk, write, read, build on the real code; isomorphism test along the traversal order with a bounded backtracking fallback) and the S-graph/S-read correspondence. "
          "Known findings D17 (>99 open ring closures) and D19 (empty graph writes the empty string) are listed.",
          "Lean 4 proof that text is eliminated from the round trip (T-wr + conformance + builder invariant) + isomorphism oracle on the real round trip", "4.1"),
- 'C02': ("PARTIAL (stage 1). Theorems in Purr/Props/C02.lean for every event history: one atom per atom token in order of appearance with the written attributes (mark adjusted per C03's convention for non-root atoms with a hydrogen); "
-         "a dot creates no bond; an atom after a (possibly elided) bond is recorded on both ends, near end with the written kind, far end reversed, arrival bond first; ring digits are recorded in place; an elided closure side takes the other "
-         "side's kind (reversed when directional) — the full 64-row reconcile table. MISSING: build = denote for the independent non-incremental denotation (partners in written order, nearest-preceding-open pairing); decided on every run by "
-         "the oracle's independent interpreter of SMILES compared with Builder::build() on every accepted string, incl. bond-list order.",
-         "Lean 4 proof of the per-event clauses of the denotation + differential comparison with an independent SMILES interpreter", "4.2"),
+ 'C02': ("BUILD = DENOTE (reading_builds_denotation, Lemmas/DenoteL.lean build_eq_denote): for EVERY string and every history of follower calls on which the builder succeeds, the adjacency list returned IS the declarative denotation Spec.denote (Purr/Spec/Denote.lean; no builder, no placeholders): "
+         "one atom per atom token in order of appearance with the written attributes (mark adjusted per C03 for non-root atoms with a hydrogen); each atom's bond list read off the events in written order — preceding atom first (kind reversed), then ring digits, branches and chain successor as they appear; "
+         "every bond on both ends; a ring digit pairs with the nearest preceding open digit of the same number (one left-to-right scan) and the two ends get the reconciled kinds (an elided side takes the other side's kind, a directional kind is reversed); a dot creates no bond. "
+         "Proof: prefix invariant (node i lists exactly the half-bonds contributed so far, an unpartnered digit being its placeholder) preserved by all five kinds of step. The reader side (tokens left to right, each once) is C07/C08/C09. "
+         "Additionally the oracle's independent SMILES interpreter is compared with Builder::build() on every accepted string, incl. bond-list order.",
+         "Lean 4 proof that the incremental builder computes a declarative denotation (prefix invariant over all histories) + differential comparison with an independent SMILES interpreter", "4.2"),
  'C03': ("STAGE 3 (stereo_roundtrip): for EVERY well-formed adjacency list, rings included, on which the traversal succeeds (D17 excepted) the complete round trip gives every atom its original kind (up to the C07 shorthands, which commute with flipping) with the @/@@ mark flipped iff the bond it was "
          "entered through sits at an odd index of its bond list, component roots keep theirs, the re-read bond list is the original with exactly that bond moved to the front, and every bond (ring closures included) keeps its kind as seen from each end, so directional bonds keep their direction. NOT a theorem: walk = walkRec (compared on every run). STAGE 1, for every atom kind, bond list and entry position: the walker hands a child entered through bond index j to the follower with its @/@@ mark flipped iff j + hasH is odd; the builder's "
          "extend flips iff hasH; the composition flips iff j is odd, i.e. iff moving the entry bond to the front is an odd permutation of the neighbour order (hydrogen counted first in the graph, after the preceding atom in text); flipping is an "
